@@ -10,7 +10,7 @@ SUDOKU1 = [[0, 0, 0, 0, 3, 0, 0, 0, 0], [2, 8, 9, 0, 0, 0, 0, 0, 0], [0, 0, 5, 7
 KNAP = [[40, 40, 38, 38, 36, 36, 34, 34, 32, 32, 30, 30], [40, 40, 38, 38, 36, 36, 34, 34, 32, 32, 30, 30], 55]
 TSP4 = [[0, 2, 1, 2], [2, 0, 2, 1], [1, 2, 0, 2], [2, 1, 2, 0]]
 TSP5 = [[0, 3, 4, 2, 7], [3, 0, 4, 6, 3], [4, 4, 0, 5, 8], [2, 6, 5, 0, 6], [7, 3, 8, 6, 0]]
-SB = {"bibd", "golomb", "magic_square", "quasigroup5", "schur", "sts"}
+SB = {"bibd", "golomb", "magic_square", "quasigroup", "quasigroup5", "schur", "sts"}
 CFGS = [{"ca": 0, "vh": 0, "dh": 0}, {"ca": 1, "vh": 0, "dh": 0}, {"ca": 0, "vh": 1, "dh": 1}, {"ca": 0, "vh": 2, "dh": 3},
         {"ca": 0, "vh": 1, "dh": 2}]
 
@@ -19,6 +19,7 @@ def instances(tier):
     q = [("queens", [n], "solve") for n in (1, 2, 3, 4, 5, 6, 7, 8)]
     q += [("latin_square", [list(range(n))], "solve") for n in (1, 2, 3, 4)] + [("latin_square", [[1, 2, 3]], "solve")]
     q += [("latin_square_rc", [n], "solve") for n in (1, 2, 3, 4)]
+    q += [("quasigroup", [n], "solve") for n in (1, 2, 3, 4, 5)]
     q += [("quasigroup5", [n], "solve") for n in (5, 6, 7)]
     q += [("magic_square", [n], "solve") for n in (2, 3)]
     q += [("magic_sequence", [n], "solve") for n in (3, 4, 5, 6, 7, 8, 10, 16, 30)]
